@@ -16,3 +16,9 @@ func TestC06Keeper(t *testing.T) { liqDrive(t, "C06") }
 // order stream; the runner replays every batch's book on the matching-engine model (AMM.run_match) and judges
 // every order's fill against its REMAINING offer coin (driver in c07_test.go).
 func TestC05Keeper(t *testing.T) { liqDrive(t, "C05") }
+
+// TestC05KeeperHunt — the known finding C05-F1 reached through the keeper by a directed search (liq2_hunt_test.go):
+// one limit order against pools whose orders on a tick are worth about one quote unit; the batch does not conserve
+// the base coin, and when the pair escrow cannot cover the deficit the whole batch of the app is rolled back at
+// every following block.
+func TestC05KeeperHunt(t *testing.T) { liqDrive(t, "C05F") }
